@@ -3,7 +3,7 @@ import json
 import os
 import re
 
-from common import standard_prologue, run_sharded, run_hx, run_drv, enc, dec, HX, DRV, VERIF
+from common import standard_prologue, run_sharded, run_hx, run_drv, enc, dec, sh, HX, DRV, VERIF, LEAN
 
 CLAIM = {
     "technique": ("Lean 4 theorems about a character-exact model of core/src/syntax/display.rs + format.rs (all entry kinds; "
@@ -728,6 +728,13 @@ def run(chk):
     ]
     if not standard_prologue(chk, THEOREMS):
         return
+    if chk.tier == "thorough":
+        # independent re-check of the compiled proofs
+        rc, out = sh(["lake", "env", "leanchecker", "Okane.Props.C19"], cwd=LEAN)
+        chk.log["leanchecker"] = "ok" if rc == 0 else out[-500:]
+        if rc != 0:
+            chk.violation("leanchecker rejects Okane.Props.C19", {"broken": "leanchecker", "log": out[-3000:]},
+                          no_failing_input=True, tag="proof")
     W = Widths()
     W.load(ASCII_ACCT + WIDE + AMBIG2 + NARROW_NONASCII + " *!;=")
 
